@@ -529,6 +529,17 @@ def run_e2e(chk, c, qitems, qmeta):
                         qmeta.append(c)
                 else:
                     RT, ham = agg.get_RelaxationTensor(ta, **kw)
+                    if th == "stR" and not c["td"] and not c["secular"] and c["mult"] == 1:
+                        # recalculation on the same object (initialize() again, in the basis it was built in)
+                        ham.protect_basis()
+                        with qr.eigenbasis_of(ham):
+                            first = np.array(RT.data)
+                            RT.initialize()
+                            again = np.array(RT.data)
+                        ham.unprotect_basis()
+                        if np.max(np.abs(again - first)) > 1e-13 * max(1e-30, float(np.max(np.abs(first)))):
+                            chk.violation("e2e:reinitialize:Redfield", "RedfieldRelaxationTensor.initialize() called again changes the tensor by %g"
+                                          % np.max(np.abs(again - first)), "monitor", c)
                 tensors.append((type(RT).__name__, RT, agg.get_Hamiltonian(), ham))
                 if th == "cRF" and not c["td"]:
                     # structure of the final "add the Foerster rates" loop: RF - Redfield must be rf_add of a rate matrix
@@ -564,6 +575,17 @@ def run_e2e(chk, c, qitems, qmeta):
                     qitems.append(qcase("QFoerster", hh.dim, 1, M=np.array(frm.data), out=np.array(FT.data), tol=1e-13 * scale))
                     qmeta.append(dict(c, sub="FoersterRelaxationTensor.initialize"))
                     tensors.append(("FoersterRelaxationTensor(no dephasing)", FT, hh, hh))
+                    # re-use of the object: a tensor initialised again (recalculation) must be the same tensor, a lazily
+                    # constructed one initialised twice likewise
+                    first = np.array(FT.data)
+                    FT.initialize()
+                    lazy = FoersterRelaxationTensor(hh, sb, initialize=False)
+                    lazy.initialize()
+                    lazy.initialize()
+                    for nm_, T_ in (("initialize() called again", np.array(FT.data)), ("constructed with initialize=False, initialize() twice", np.array(lazy.data))):
+                        if np.max(np.abs(T_ - first)) > 1e-13 * scale:
+                            chk.violation("e2e:reinitialize:Foerster", "FoersterRelaxationTensor %s differs from the first initialisation by %g (scale %g); "
+                                          "trace identity defect %g" % (nm_, np.max(np.abs(T_ - first)), scale, trace_dev(T_)), "monitor", c)
     except Exception as e:
         msg = repr(e)
         # combinations the package does not offer are counted, not judged (no tensor was built)
